@@ -61,9 +61,12 @@ PropOK(r) == IF r.kind = "lex" THEN LexPropOK(r) ELSE ParsePropOK(r)
 \* which part of the property a rejected record breaks (names the site of the violation)
 Why(r) ==
   IF r.kind = "lex" THEN
-       LET d == L!DTok(r.s) IN
+       LET d == L!DTok(r.s)
+           cr == L!Run(r.s, L!AllDevs) IN
        IF ~r.err /\ d.err THEN "lex-accepts"
-       ELSE IF r.err /\ ~d.err THEN "lex-rejects"
+       ELSE IF r.err /\ ~d.err THEN
+            \* exactly the behaviour of a named deviation of the pinned code: its name
+            IF cr.dev # "none" /\ LexObs(r) = L!Obs(cr) THEN cr.dev ELSE "lex-rejects"
        ELSE IF ~r.err THEN "lex-tokens" ELSE "lex-error-position"
   ELSE LET ds == P!Sentences(r.ts, TRUE) IN
        IF ~r.lexok THEN "render-lex"
@@ -76,9 +79,9 @@ Init == l = 1 /\ mism = <<>> /\ why = <<>> /\ drift = <<>> /\ ts = <<>> /\ s = <
 Step ==
   /\ l <= Len(Trace)
   /\ LET r == Trace[l] IN
-       /\ mism' = IF PropOK(r) \/ Len(mism) >= 400 THEN mism ELSE Append(mism, l)
-       /\ why' = IF PropOK(r) \/ Len(mism) >= 400 THEN why ELSE Append(why, Why(r))
-       /\ drift' = IF ModelOK(r) \/ Len(drift) >= 400 THEN drift ELSE Append(drift, l)
+       /\ mism' = IF PropOK(r) \/ Len(mism) >= 20000 THEN mism ELSE Append(mism, l)
+       /\ why' = IF PropOK(r) \/ Len(mism) >= 20000 THEN why ELSE Append(why, Why(r))
+       /\ drift' = IF ModelOK(r) \/ Len(drift) >= 20000 THEN drift ELSE Append(drift, l)
   /\ l' = l + 1
   /\ UNCHANGED <<ts, s, tc>>
 Spec == Init /\ [][Step]_<<l, mism, why, drift, ts, s, tc>>
